@@ -93,6 +93,18 @@ Definition failure_constraint_ok (s : fstate) : bool :=
   && bytestring_ok fc_limit_traceback (s_traceback s) && forallb (bytestring_ok fc_limit_parents) (s_parents s)
   && match fc_parents_maxlen with None => true | Some m => Z.of_nat (List.length (s_parents s)) <=? m end.
 
+(* a bytes value travels as a STRING token of its length or -- on a connection with a negotiated vocabulary table, when it
+   is exactly one of the table's words -- as a VOCAB token, which the taster must accept (no size: it is checked as an
+   object after expansion).  `vocab b` = "b is sent as VOCAB": any table is allowed. *)
+Definition bytestring_ok_enc (vocab : list Z -> bool) (lim : Z) (b : list Z) : bool :=
+  (if vocab b then bytestring_taster_accepts_vocab else negb (rejects token_size_rejects (blen b) lim))
+  && negb (rejects bytestring_object_rejects (blen b) lim).
+
+Definition failure_constraint_ok_enc (vocab : list Z -> bool) (s : fstate) : bool :=
+  bytestring_ok_enc vocab fc_limit_type (s_type s) && bytestring_ok_enc vocab fc_limit_value (s_value s)
+  && bytestring_ok_enc vocab fc_limit_traceback (s_traceback s) && forallb (bytestring_ok_enc vocab fc_limit_parents) (s_parents s)
+  && match fc_parents_maxlen with None => true | Some m => Z.of_nat (List.length (s_parents s)) <=? m end.
+
 (* ---- what the caller's Deferred gets (ErrorUnslicer.receiveClose + CopiedFailure.setCopyableState) *)
 Inductive delivered :=
 | Copied (s : fstate)              (* a CopiedFailure: type / value / traceback / parents as sent *)
